@@ -264,3 +264,74 @@ def run(rep: Report, prog: Program, tier: str) -> None:
             rep.fail(mk_finding(prog, PROP, "C15-CLAMP", upd, node, f"on over-use the estimate is cut to {bad[1]} for a measured {bad[0]}: more than 85 %"))
         else:
             rep.ok("C15-CLAMP", f"over-use cut {unparse(node)}", sample="<= 0.85 x measured on the grid")
+
+    # ---- C15-PIPE: the whole estimator pipeline evaluated on packet histories, at a small send-time origin and across the 24-bit wrap
+    rep.rule("C15-PIPE", "RemoteBitrateEstimator.add on packet histories: never raises, REMB-encodable results, same estimates whatever the send-time origin", min_instances=1)
+    import math as _math
+
+    from engine.index import Unknown as _UnknownP
+    from .objhook import make_hook as _mkhook
+
+    def _px(call, evl):
+        nm = unparse(call.func)
+        if nm.startswith("math.") and hasattr(_math, nm.split(".", 1)[1]):
+            try:
+                return getattr(_math, nm.split(".", 1)[1])(*[evl.ev(a) for a in call.args])
+            except ValueError:
+                raise _Raised("ValueError", call)
+        return _xh(call, evl)
+    ph = _mkhook(prog, _px)
+    pev = _Ev(prog, add.module, None, {}, ph)
+    RBEC = prog.cls("rate.RemoteBitrateEstimator")
+
+    def history(kind: str, n: int):
+        out = []
+        for i in range(n):
+            send_ms = i * 10
+            if kind == "growing queueing delay (over-use)":
+                arr = 1000 + i * 10 + (i * 3) // 7
+                size, ssrc = 1200, 1234
+            elif kind == "steady, two SSRCs, some empty packets":
+                arr = 1000 + i * 10
+                size, ssrc = (0 if i % 9 == 4 else 900), (1234 if i % 2 else 99)
+            else:  # bursts
+                arr = 1000 + (i // 5) * 50
+                size, ssrc = 300 + (i % 4) * 250, 1234
+            out.append((send_ms, arr, size, ssrc))
+        return out
+    scen = [("growing queueing delay (over-use)", 130)]
+    if tier == "thorough":
+        scen = [("growing queueing delay (over-use)", 400), ("steady, two SSRCs, some empty packets", 700), ("bursts", 500)]
+    for kind, n in scen:
+        results = {}
+        problem = None
+        for origin in (0, (1 << 24) - 40 * 262):
+            try:
+                est = ph.instantiate(RBEC, [], {}, pev)
+                outs = []
+                seen = []
+                for i, (send_ms, arr, size, ssrc) in enumerate(history(kind, n)):
+                    if ssrc not in seen:
+                        seen.append(ssrc)
+                    r = ph.run_method(add, est, [], dict(abs_send_time=(origin + send_ms * 262) & 0xFFFFFF, arrival_time_ms=arr, payload_size=size, ssrc=ssrc))
+                    if r is not None:
+                        br, ss = r
+                        if not (isinstance(br, int) and not isinstance(br, bool) and 0 <= br < (0x3FFFF << 63)) or sorted(ss) != sorted(seen) or len(ss) > 255:
+                            problem = f"packet #{i}: result {r!r} is not a non-negative integer bitrate with exactly the SSRCs seen {seen}"
+                        outs.append((i, br, tuple(ss)))
+                results[origin] = outs
+            except _Raised as ex:
+                problem = f"raises {ex.name} (send-time origin {origin})"
+                break
+            except _UnknownP as ex:
+                raise AnalysisError(f"C15-PIPE cannot evaluate [{kind}]: {ex}")
+        if problem is None and len(results) == 2:
+            a, b = results.values()
+            if a != b:
+                k = next((i for i, (x, y) in enumerate(zip(a, b)) if x != y), min(len(a), len(b)))
+                problem = f"estimates differ with the send-time origin (24-bit wrap inside the run): {a[k:k + 1]} vs {b[k:k + 1]}"
+        label = f"{kind}, {n} packets"
+        if problem:
+            rep.fail(mk_finding(prog, PROP, "C15-PIPE", add, add.node, f"[{label}] {problem}", construct="estimator pipeline: " + problem.split(":")[0][:50]))
+        else:
+            rep.ok("C15-PIPE", label, sample=(f"{len(a)} estimates, last {a[-1][1]} bit/s" if a else "no estimate yet") + ", identical across the send-time wrap")
